@@ -32,7 +32,7 @@ RUNLEVEL = ("startTestRun", "stopTestRun", "stop", "done", "shouldStop")
 NOTAGS = {"n": [], "g": []}
 ACT = {"begin": "local", "item": "local", "acquire": "acquire", "try_acquire": "try_acquire", "call": "call",
        "release": "release"}
-INVARIANTS = ("HolderOnly", "Contiguous", "BlockShape", "OnceInOrder", "Released", "FaultsSurface", "EndState")
+INVARIANTS = ("ShouldStopReads", "HolderOnly", "Contiguous", "BlockShape", "OnceInOrder", "Released", "FaultsSurface", "EndState")
 
 
 class TargetFault(Exception):
@@ -81,6 +81,7 @@ class Target:
         self._faults = set(map(tuple, faults))
         self._n = {}
         self.log = []
+        self._stopped = False  # the target's shouldStop flag: set by a stop() that got through
 
     def _call(self, name, v=0, tg=None):
         ct = self._s.yield_point("call", call=name)
@@ -131,6 +132,7 @@ class Target:
 
     def stop(self):
         self._call("stop")
+        self._stopped = True
 
     def done(self):
         self._call("done")
@@ -138,7 +140,7 @@ class Target:
     @property
     def shouldStop(self):
         self._call("shouldStop")
-        return False
+        return self._stopped
 
     @shouldStop.setter
     def shouldStop(self, value):
@@ -174,7 +176,7 @@ def _worker(sch, t, items, fwd):
                         raise
                     fwd.stopTest(test)
                 elif it["kind"] == "shouldStop":
-                    fwd.shouldStop
+                    sch.note(read="true" if fwd.shouldStop else "false")
                 else:
                     getattr(fwd, it["kind"])()
                 sch.note(ret="ok")
@@ -220,6 +222,7 @@ class Execution:
             "f": bool(rec.get("f", False)),
             "holder": self.sem.holder() or 0,
             "ret": rec.get("ret", "none"),
+            "read": rec.get("read", "none"),  # the value a shouldStop read on the forwarder returned in this step
             "got": bool(rec.get("got", True)),  # non-blocking acquire: was a permit taken
             "semval": self.sem.value,  # the semaphore's counter after the step
         }
@@ -402,6 +405,10 @@ def systematic_scenarios(tier):
     sc.append(([[T(st=5, en=7), T(st=7, en=9)], [R("stop"), T(st=7, en=9)]], [(1, 4)], 2))
     # shouldStop polled while another thread is inside its block
     sc.append(([[R("shouldStop"), plain, R("shouldStop")], [tagged, plain]], [], 2))
+    # ... with stop() forwarded by the other thread before / around the poll: a read returns the target's flag as of
+    # a moment when the reader held the semaphore
+    sc.append(([[R("shouldStop"), R("shouldStop")], [R("stop"), tagged]], [], 2))
+    sc.append(([[plain, R("shouldStop")], [R("stop"), R("shouldStop"), plain]], [(2, 1)], 2))
     sc.append(([[tagged, ungl], [plain, T("addUnexpectedSuccess", add("h"), None)]], [], 2))
     sc.append(([[R("stop"), plain], [T("addExpectedFailure"), R("done")]], [(1, 1)], 2))
     sc.append(([[R("shouldStop"), tagged], [R("stopTestRun"), plain]], [(2, 1), (1, 6)], 2))
@@ -559,7 +566,7 @@ def run(tier, pid="C12"):
     # ---- TLC jobs run in the background (2 at a time, 4 workers each) while the real executions are made ----
     from concurrent.futures import ThreadPoolExecutor
 
-    mc = ["ts_mcQ.cfg", "ts_mcR.cfg", "ts_mcT.cfg"] if quick else ["ts_mcQ.cfg", "ts_mcR.cfg", "ts_mcT.cfg", "ts_mcK.cfg", "ts_mc41.cfg", "ts_mc23.cfg", "ts_mc33.cfg"]
+    mc = ["ts_mcQ.cfg", "ts_mcR.cfg", "ts_mcT.cfg", "ts_mcS.cfg"] if quick else ["ts_mcQ.cfg", "ts_mcR.cfg", "ts_mcT.cfg", "ts_mcS.cfg", "ts_mcK.cfg", "ts_mc41.cfg", "ts_mc23.cfg", "ts_mc33.cfg"]
     exps = ["ts_exp21.cfg", "ts_exp22q.cfg"] if quick else ["ts_exp21.cfg", "ts_exp22.cfg"]
     from . import apalache
 
